@@ -103,12 +103,16 @@ def _togrid(st, a, q, d):
 
 # ---- execution -------------------------------------------------------------
 
+from datetime import date as _dt_date  # noqa: E402
+
+
 class State:
     """Per-case scratch state of the implementation side (objects by name)."""
 
     def __init__(self):
         self.obj = {}
         self.numkind = "dec"
+        self.today = _dt_date(2000, 1, 1)
 
 
 def exec_ops(ops):
@@ -685,3 +689,254 @@ def _u_hash(st, u, v):
     a, b = Unit(u), Unit(v)
     eq = a == b
     return f"ok eq={_b(eq)} hasheq={_b(hash(a) == hash(b))}"
+
+
+# ---- money -----------------------------------------------------------------
+
+import datetime as _dt  # noqa: E402
+
+
+def _money():
+    import quantity.money as qm
+    return qm
+
+
+@op("load_money")
+def _load_money(st):
+    _money()
+    return "ok Money"
+
+
+def _dec_with_prec(v, p):
+    d = Decimal(_F(v), int(p))
+    return d
+
+
+@op("cur_new")
+def _cur_new(st, sym, minor, sf):
+    qm = _money()
+    mi = None if minor == "-" else (2.5 if minor == "x" else int(minor))
+    if sf == "-":
+        s = None
+    elif sf == "bad":
+        s = "abc"
+    else:
+        v, p = sf.split(":")
+        s = _dec_with_prec(parse_rat(v), p)
+        assert s.precision == int(p)
+        if st.numkind == "str":
+            s = str(s)
+    u = qm.Money.new_unit(opt_str(sym), None, mi, s)
+    assert isinstance(u, qm.Currency) and u.quantum == u.smallest_fraction
+    return f"ok {u.symbol} frac={rat(u.smallest_fraction)}"
+
+
+@op("cur_reg")
+def _cur_reg(st, code):
+    qm = _money()
+    before = qm.Money._unit_map.get(code)
+    u = qm.Money.register_currency(code)
+    return (f"ok {u.symbol} name={u.name} frac={rat(u.smallest_fraction)} "
+            f"same={_b(before is u)}")
+
+
+def _num_tok(tok):
+    kind, _, v = tok.partition(":")
+    if kind == "bad":
+        return "abc"
+    if kind == "none":
+        return None
+    fr = parse_rat(v)
+    if kind == "int":
+        assert fr.denominator == 1
+        return int(fr)
+    if kind == "dec":
+        return Decimal(fr)
+    if kind == "frac":
+        return fr
+    if kind == "float":
+        f = float(fr)
+        assert _F(f) == fr, "float token must be exactly representable"
+        return f
+    if kind == "str":
+        try:
+            return str(Decimal(fr))
+        except ValueError:
+            return f"{fr.numerator}/{fr.denominator}"
+    raise KeyError(tok)
+
+
+def show_rate(r):
+    return (f"{r.unit_currency.symbol} {rat(r._unit_multiple)} "
+            f"{r.term_currency.symbol} {rat(r._term_amount)}")
+
+
+@op("rate_new")
+def _rate_new(st, name, uc, um, tc, ta, d):
+    qm = _money()
+    with dflt_mode(d):
+        r = qm.ExchangeRate(Unit(uc), _num_tok(um), Unit(tc), _num_tok(ta))
+    st.obj["rate", name] = r
+    assert type(r._term_amount) is Decimal and type(r._unit_multiple) is Decimal
+    q = r.quotation
+    assert q == (r.unit_currency, r.term_currency, r.rate)
+    return f"ok {show_rate(r)} rate={rat(r.rate)} inv={rat(r.inverse_rate)}"
+
+
+@op("rate_inv")
+def _rate_inv(st, a, name, d):
+    with dflt_mode(d):
+        r = st.obj["rate", a].inverted()
+    st.obj["rate", name] = r
+    return "ok " + show_rate(r)
+
+
+@op("rate_op")
+def _rate_op(st, o, a, b, name, d):
+    x, y = st.obj["rate", a], st.obj["rate", b]
+    with dflt_mode(d):
+        r = x * y if o == "mul" else x / y
+    st.obj["rate", name] = r
+    return "ok " + show_rate(r)
+
+
+@op("rate_eq")
+def _rate_eq(st, a, b):
+    x, y = st.obj["rate", a], st.obj["rate", b]
+    eq = x == y
+    assert eq == (y == x)
+    heq = hash(x) == hash(y)
+    if eq:
+        assert (len({x, y}) == 1) == heq
+    return f"ok eq={_b(eq)} hasheq={_b(heq)}"
+
+
+@op("money_rate")
+def _money_rate(st, o, m, rn, d):
+    r = st.obj["rate", rn]
+    with dflt_mode(d):
+        q = qty_of(m)
+        if o == "mul":
+            res = q * r
+        elif o == "rmul":
+            res = r * q
+        elif o == "div":
+            res = q / r
+        else:
+            res = r / q
+    return "ok qty " + show_qty(res)
+
+
+def _parse_date(s):
+    y, m, d = s.split("-")
+    return _dt.date(int(y), int(m), int(d))
+
+
+@op("mc_new")
+def _mc_new(st, name, base):
+    qm = _money()
+    st.obj["mc", name] = qm.MoneyConverter(Unit(base), lambda: st.today)
+    st.obj["mcname", id(st.obj["mc", name])] = name
+    return "ok"
+
+
+@op("mc_today")
+def _mc_today(st, dt):
+    st.today = _parse_date(dt)
+    return "ok"
+
+
+def _vspell(s):
+    if s == "none":
+        return None
+    if s == "other":
+        return 3.5
+    kind, _, v = s.partition(":")
+    if kind == "int":
+        return int(v)
+    if kind == "tuple":
+        y, m = v.split(",")
+        return (int(y), int(m))
+    if kind == "date":
+        return _parse_date(v)
+    if kind == "str":
+        return v
+    raise KeyError(s)
+
+
+def _specs(s):
+    if s == "-":
+        return []
+    out = []
+    for sp in s.split(";"):
+        c, ta, um = sp.split(",")
+        out.append((Unit(c), _num_tok(ta), _num_tok(um)))
+    return out
+
+
+@op("mc_update")
+def _mc_update(st, name, vs, specs, d):
+    with dflt_mode(d):
+        st.obj["mc", name].update(_vspell(vs), _specs(specs))
+    return "ok"
+
+
+@op("mc_rate")
+def _mc_rate(st, name, u, t, dt, d):
+    with dflt_mode(d):
+        r = st.obj["mc", name].get_rate(Unit(u), Unit(t),
+                                        None if dt == "-" else _parse_date(dt))
+    return "ok none" if r is None else "ok " + show_rate(r)
+
+
+@op("mc_call")
+def _mc_call(st, name, a, u, t, dt, d):
+    with dflt_mode(d):
+        unit = Unit(u)
+        m = unit.qty_cls(amount_of(a), unit)
+        r = st.obj["mc", name](m, Unit(t), None if dt == "-" else _parse_date(dt))
+    return "ok " + num_str(r)
+
+
+def _vfmt(v):
+    if v is None:
+        return "none"
+    if isinstance(v, tuple):
+        return f"{v[0]}-{v[1]}"
+    if isinstance(v, _dt.date):
+        return f"{v.year}-{v.month}-{v.day}"
+    return str(v)
+
+
+@op("mc_dump")
+def _mc_dump(st, name):
+    c = st.obj["mc", name]
+    k = c._type_of_validity
+    kind = "unset" if k is None else {type(None): "none", int: "year",
+                                      tuple: "month", _dt.date: "day"}[k]
+    lines = sorted(f"{_vfmt(v)}/{cur.symbol}={show_rate(r)}"
+                   for (v, cur), r in c._rate_dict.items())
+    return f"ok kind={kind} " + " ; ".join(lines)
+
+
+@op("mc_stack")
+def _mc_stack(st, o, name):
+    qm = _money()
+    c = st.obj["mc", name]
+    if o == "reg":
+        qm.Money.register_converter(c)
+    elif o == "unreg":
+        qm.Money.remove_converter(c)
+    elif o == "enter":
+        assert c.__enter__() is c
+    elif o == "exit":
+        assert c.__exit__(None, None, None) is None
+    else:
+        assert not c.__exit__(ValueError, ValueError("x"), None)
+    return "ok"
+
+
+@op("mc_stack_show")
+def _mc_stack_show(st):
+    qm = _money()
+    return "ok " + ",".join(st.obj["mcname", id(c)] for c in qm.Money._converters)
